@@ -377,9 +377,6 @@ Lemma hi_ok_iff b i j : hi_ok b i j = true <->
 Proof. destruct b; simpl; rewrite ?Nat.leb_le; try tauto; try lia; try (split; [discriminate | tauto]). Qed.
 
 (* =============================================================== the value attached to a datapoint *)
-Definition windowed (f : afun) : bool :=
-  match f with FLag _ _ | FLead _ _ | FRank | FRatio => false | _ => true end.
-
 Lemma afun_val_windowed d sp rows f g r : windowed f = true ->
   afun_val d sp rows f g r = Ok (agg f (map g (win_rows d sp rows r))).
 Proof. destruct f; simpl; try discriminate; reflexivity. Qed.
@@ -529,8 +526,6 @@ Proof.
 Qed.
 
 (* =============================================================== calc clause *)
-Definition calc_ms (d : dset) (name : string) : list string := if mem_s name (d_ms d) then d_ms d else d_ms d ++ [name].
-
 Lemma d_calc_analytic_spec d name f sp operand d' :
   d_calc_analytic d name f sp operand = Ok d' ->
   mem_s name (d_ids d) = false /\
